@@ -55,6 +55,7 @@ type fctx struct {
 	ghosts   map[string]Term
 	oldEnv   *Env
 	closures map[types.Object]*ast.FuncLit
+	splits   []Term // active case-analysis conditions (obligations are discharged once per case)
 	measure0 []Term // entry value of the function-level decreases measure
 	hidden   []types.Object // hidden index variables of enclosing range loops (innermost last)
 }
@@ -108,6 +109,23 @@ func (x *Exec) assert(env *Env, kind, detail string, goal Term) {
 	}
 	if goal.S == "true" {
 		// still counted: trivially discharged obligations are not emitted
+		return
+	}
+	if x.cx != nil && len(x.cx.splits) > 0 {
+		// case analysis requested by the contract: one query per case (all must be discharged)
+		name := x.oblName(kind, detail)
+		cases := []Term{True}
+		for _, sp := range x.cx.splits {
+			var next []Term
+			for _, c := range cases {
+				next = append(next, And(c, sp), And(c, Not(sp)))
+			}
+			cases = next
+		}
+		for i, c := range cases {
+			x.W.Oblige(fmt.Sprintf("%s[case%d]", name, i+1), kind, And(env.pc, c), goal)
+		}
+		x.W.AddFact(env.pc, goal)
 		return
 	}
 	x.W.Oblige(x.oblName(kind, detail), kind, env.pc, goal)
@@ -1175,6 +1193,13 @@ func (x *Exec) execLoopCommon(node ast.Node, bodyPos token.Pos, env *Env, label 
 			x.assert(bodyEnv, tag+"/hint:"+clauseName(c, i), "", hsc.EvalBool(c.Expr))
 		}
 	}
+	nsplits := len(x.cx.splits)
+	if lc != nil {
+		ssc := loopScope(bodyEnv)
+		for _, c := range lc.Splits {
+			x.cx.splits = append(x.cx.splits, x.named("split", ssc.EvalBool(c.Expr)))
+		}
+	}
 	out := body(bodyEnv)
 	conts := append([]*Env{out}, fr.continues...)
 	end := x.merge(conts)
@@ -1188,6 +1213,7 @@ func (x *Exec) execLoopCommon(node ast.Node, bodyPos token.Pos, env *Env, label 
 			x.assert(end, tag+"/variant", "", And(Cmp(">=", variant0, IntLit(0)), Cmp("<", v1, variant0)))
 		}
 	}
+	x.cx.splits = x.cx.splits[:nsplits]
 	x.cx.frames = x.cx.frames[:len(x.cx.frames)-1]
 	exits := append([]*Env{exitEnv}, fr.breaks...)
 	return x.merge(exits)
